@@ -142,8 +142,7 @@ def register_summary(R):
     S = "test_record.status"
     R.inline_fn(RR + "StreamSummary._incomplete", RR + "StreamSummary._success", RR + "StreamSummary._skip", RR + "StreamSummary._exists",
                 RR + "StreamSummary._fail", RR + "StreamSummary._xfail", RR + "StreamSummary._uxsuccess")
-    R.contract(RR + "_details_to_str", assumed=True, params={"details": "dict", "special": "any"}, returns="str", pure=True)
-    R.shape("AContent", as_text=dict(signature="", returns="str", pure=True, exsures=["True"]))
+    R.shape("AContent", as_text=dict(signature="", returns="str", pure=True))   # assumption: details hold decodable text
     R.contract(RR + "StreamSummary._gather_test", props=["C10"], params={"test_record": "_TestRecord"},
                requires=[distinct],
                modifies=["self.testsRun"] + ["list(self.%s)" % l for l in LISTS] + ["f:_outcome"],
